@@ -3,45 +3,50 @@
 From Boltons Require Import Lib.Prelude Lib.C12_Base Spec.C12_Spec Model.C12_Model.
 
 Lemma sock_send_some cur sc k sc' :
-  cur <> [] -> sock_send cur sc = (Some k, sc') ->
-  1 <= k <= length cur /\ stimeouts sc' = stimeouts sc.
+  cur <> [] -> sock_send cur sc = (SSent k, sc') ->
+  1 <= k <= length cur /\ sintrs sc' = sintrs sc.
 Proof.
   intros Hc H. assert (1 <= length cur) by (destruct cur; [congruence|cbn; lia]).
-  destruct sc as [|[j|] r]; unfold sock_send in H; inversion H; subst; clear H.
+  destruct sc as [|[j| |c] r]; unfold sock_send in H; inversion H; subst; clear H.
   - split; [lia|reflexivity].
   - change (match length cur with 0 => 0 | S m' => S (Nat.min j m') end)
       with (Nat.min (S j) (length cur)).
     split; [lia|reflexivity].
 Qed.
 
-Lemma sock_send_none cur sc sc' :
-  sock_send cur sc = (None, sc') -> stimeouts sc = S (stimeouts sc').
-Proof. destruct sc as [|[j|] r]; cbn; intro H; inversion H; subst; reflexivity. Qed.
+Lemma sock_send_intr cur sc e sc' :
+  sock_send cur sc = (SIntr e, sc') -> sintrs sc = e :: sintrs sc'.
+Proof. destruct sc as [|[j| |c] r]; cbn; intro H; inversion H; subst; reflexivity. Qed.
+
+Lemma sintrs_head sc e l : sintrs sc = e :: l -> is_intr_exn e = true.
+Proof.
+  induction sc as [|[j| |c] r IH]; cbn; intro H; try discriminate; auto; inversion H; reflexivity.
+Qed.
 
 Lemma send_loop_ok : forall fuel cur total sc w r cur' sc' w',
   length cur < fuel ->
   send_loop fuel cur total sc w = (r, cur', sc', w') ->
   exists sent, cur = sent ++ cur' /\ w' = w ++ sent /\
     match r with
-    | Some t => cur' = [] /\ t = total + length sent /\ stimeouts sc' = stimeouts sc
-    | None => stimeouts sc = S (stimeouts sc')
+    | inl t => cur' = [] /\ t = total + length sent /\ sintrs sc' = sintrs sc
+    | inr e => sintrs sc = e :: sintrs sc'
     end.
 Proof.
   induction fuel as [|f IH]; intros cur total sc w r cur' sc' w' F H; [lia|].
   cbn [send_loop] in H. destruct cur as [|x cur].
   - inversion H; subst. exists []. cbn. rewrite app_nil_r. repeat split; lia.
   - remember (x :: cur) as c eqn:Ec.
-    destruct (sock_send c sc) as [[k|] sc1] eqn:Es.
+    destruct (sock_send c sc) as [[k|e] sc1] eqn:Es.
     + apply sock_send_some in Es as [Hk Hst]; [|subst; congruence].
       apply IH in H; [|rewrite skipn_length; lia].
       destruct H as (sent & H1 & H2 & H3). exists (firstn k c ++ sent). split; [|split].
       * rewrite <- app_assoc, <- H1. symmetry. apply firstn_skipn.
       * rewrite H2, app_assoc. reflexivity.
-      * destruct r as [t|].
+      * destruct r as [t|e].
         -- destruct H3 as (H3 & H4 & H5). repeat split; auto; try congruence.
            rewrite app_length, firstn_length_le by lia. lia.
         -- congruence.
-    + inversion H; subst. apply sock_send_none in Es. exists []. cbn. rewrite app_nil_r. auto.
+    + inversion H; subst. apply sock_send_intr in Es. exists []. cbn. rewrite app_nil_r. auto.
 Qed.
 
 Lemma concat_filter_nonempty (l : list bytes) :
@@ -71,11 +76,12 @@ Definition send_post (s : bs) (o : op) (out : outcome) (s' : bs) : Prop :=
   exists sent, wire s' = wire s ++ sent /\
     wire s' ++ concat (sbuf s') = (wire s ++ concat (sbuf s)) ++ op_data o /\
     match o, out with
-    | Buffer _, ONone => sent = [] /\ stimeouts (script s') = stimeouts (script s)
+    | Buffer _, ONone => sent = [] /\ sintrs (script s') = sintrs (script s)
     | Send _, ONat n => concat (sbuf s') = [] /\ n = length sent /\
-                        stimeouts (script s') = stimeouts (script s)
-    | Flush, ONone => concat (sbuf s') = [] /\ stimeouts (script s') = stimeouts (script s)
-    | Send _, OExn Timeout | Flush, OExn Timeout => stimeouts (script s) = S (stimeouts (script s'))
+                        sintrs (script s') = sintrs (script s)
+    | Flush, ONone => concat (sbuf s') = [] /\ sintrs (script s') = sintrs (script s)
+    (* interrupted after 0 or more bytes went out: by a time-out or by any other socket error *)
+    | Send _, OExn e | Flush, OExn e => sintrs (script s) = e :: sintrs (script s')
     | _, _ => False
     end.
 
@@ -86,8 +92,8 @@ Lemma send_gen s data out s' :
     wire s' ++ concat (sbuf s') = (wire s ++ concat (sbuf s)) ++ data /\
     match out with
     | ONat n => concat (sbuf s') = [] /\ n = length sent /\
-                stimeouts (script s') = stimeouts (script s)
-    | OExn Timeout => stimeouts (script s) = S (stimeouts (script s'))
+                sintrs (script s') = sintrs (script s)
+    | OExn e => sintrs (script s) = e :: sintrs (script s')
     | _ => False
     end.
 Proof.
@@ -96,7 +102,7 @@ Proof.
   clearbody cur.
   destruct (send_loop (S (length cur)) cur 0 (script s) (wire s)) as [[[r cur'] sc'] w'] eqn:E.
   apply send_loop_ok in E; [|lia]. destruct E as (sent & H1 & H2 & H3).
-  destruct r as [t|]; inversion H; subst out s'; clear H; cbn [rbuf nt maxsize recvsize sbuf script wire set_send];
+  destruct r as [t|e]; inversion H; subst out s'; clear H; cbn [rbuf nt maxsize recvsize sbuf script wire set_send];
     (split; [repeat split|]); exists sent; (split; [assumption|]); cbn [concat]; rewrite app_nil_r.
   - destruct H3 as (H3 & H4 & H5). subst cur'. rewrite app_nil_r in H1. split; [|auto].
     rewrite H2, app_nil_r, <- app_assoc, <- Hcur, H1. reflexivity.
@@ -109,13 +115,13 @@ Proof.
   intros Ho H. destruct o; try discriminate; cbn [step] in H; unfold send_post; cbn [op_data].
   - apply send_gen in H. destruct H as (SR & sent & H1 & H2 & H3). split; [assumption|].
     exists sent. repeat (split; [assumption|]).
-    destruct out as [| | |[]]; try contradiction; assumption.
+    destruct out; try contradiction; assumption.
   - unfold buffer in H. inversion H; subst; clear H. cbn [rbuf nt maxsize recvsize sbuf script wire set_send].
     split; [repeat split|]. exists []. rewrite app_nil_r. split; [reflexivity|].
     rewrite concat_app. cbn. rewrite app_nil_r, app_assoc. auto.
   - unfold flush in H. destruct (send s []) as [o1 s1] eqn:E. apply send_gen in E.
     destruct E as (SR & sent & H1 & H2 & H3). rewrite app_nil_r in H2.
-    destruct o1 as [| | |[]]; try contradiction; inversion H; subst; clear H;
+    destruct o1; try contradiction; inversion H; subst; clear H;
       (split; [assumption|]); exists sent; rewrite app_nil_r; repeat (split; [assumption|]).
     + destruct H3 as (H3 & _ & H5). auto.
     + assumption.
